@@ -227,21 +227,22 @@ func init() {
 			for rev := 0; rev <= 1; rev++ {
 				add(3, 1, rev)
 				add(4, 2, rev)
+				add(4, 1, rev)
+				add(5, 2, rev)
+				add(5, 3, rev)
 				if tier == "thorough" {
-					add(4, 1, rev)
-					add(5, 2, rev)
-					add(5, 3, rev)
 					add(6, 2, rev)
 					add(6, 3, rev)
+					add(7, 3, rev)
 				}
 			}
 			return js
 		},
 		bounds: map[string]any{
-			"quick":    map[string]any{"files": "3 messages in 3 chunks; 4 messages in 3 chunks (1+2+1)", "channels": 2, "symbolic": "every log time (full 64 bit), payload bytes", "reads": "each order twice"},
-			"thorough": map[string]any{"files": "up to 6 messages, chunk partitions 1/2/3 per chunk", "channels": 2, "symbolic": "every log time (full 64 bit)"},
+			"quick":    map[string]any{"files": "3 messages in 3 chunks; 4 messages in 2 and in 4 chunks; 5 messages in 3 chunks (2+2+1) and in 2 chunks (3+2)", "channels": 2, "symbolic": "every log time (full 64 bit), payload bytes", "reads": "each order twice"},
+			"thorough": map[string]any{"files": "as quick + 6 messages (2 or 3 per chunk) and 7 messages (3 per chunk)", "channels": 2, "symbolic": "every log time (full 64 bit)"},
 		},
-		outside:     append([]string{"more than 6 messages / 4 chunks", "combination with time windows and topic filters is decided in C04"}, outsideCommon...),
+		outside:     append([]string{"more than 7 messages / 4 chunks (in particular: more than 12 pending message indexes, where a library sort may switch algorithm)", "combination with time windows and topic filters is decided in C04"}, outsideCommon...),
 		assumptions: append([]string{"while known finding C04-K1 is listed: no message log time equals 2^64-1"}, commonAssumptions...),
 	}
 }
